@@ -20,6 +20,7 @@ def dispatch (line : String) : String :=
     else if cmd = "storm" then stormLine toks
     else if cmd = "abort" then abortLine toks
     else if cmd = "timing" then timingLine toks
+    else if cmd = "errstop" then errstopLine toks
     else if cmd = "multi" then multiLine toks
     else if cmd = "cfg" then cfgLine toks
     else if cmd = "loop" then loopLine toks
